@@ -6,6 +6,8 @@ From CR Require Import Model.Wildcard.
 From CR Require Import Proofs.WildcardSort.
 From CR Require Import Proofs.Wildcard.
 From CR Require Import Proofs.WildcardRDNSS.
+From CR Require Corr.C14.
+From CR Require Import Proofs.WildcardCorr14.
 From Coq Require Import Permutation Sorted Lia.
 Local Open Scope N_scope.
 
@@ -135,11 +137,34 @@ Theorem C14_static_sorted : forall raw auto servers,
   /\ Forall raw_v6 raw.
 Proof. exact parse_rdnss_spec. Qed.
 
+(* a server list is accepted exactly when every entry is an IPv6 address and no address (:: included)
+   is written twice *)
+Theorem C14_static_accepts : forall raw,
+  is_ok (parse_rdnss raw) = true <-> Forall raw_v6 raw /\ NoDup (raw_addrs raw).
+Proof. exact parse_rdnss_accepts. Qed.
+
 (* Go's map iteration order does not matter for the sorted server list *)
 Theorem C14_static_map_order : forall raw auto set set',
   parse_servers false [] raw = Ok (auto, set) -> Permutation set set' ->
   isort (fun x => x) set' = isort (fun x => x) set.
 Proof. exact parse_rdnss_map_order. Qed.
+
+(* the specification checker that is evaluated on the implementation's observed output (Corr.C14.holds)
+   accepts the model's output on every input whose addresses are 128-bit numbers *)
+Theorem C14_checker_accepts_model_plugin : forall auto servers lifetime addrs,
+  (forall l, addrs = Some l -> Forall (fun e => ip_addr e < 2 ^ 128) l) ->
+  Corr.C14.holds (Corr.C14.mkCase None (Ok (auto, servers)) lifetime addrs
+                    (rdnss_Apply auto lifetime servers addrs)) = true.
+Proof. exact Proofs.WildcardCorr14.C14_checker_accepts_model_plugin. Qed.
+
+Theorem C14_checker_accepts_model_config : forall raw lifetime addrs,
+  (forall l, addrs = Some l -> Forall (fun e => ip_addr e < 2 ^ 128) l) ->
+  Corr.C14.holds (Corr.C14.mkCase (Some raw) (parse_rdnss raw) lifetime addrs
+     (match parse_rdnss raw with
+      | Ok (auto, servers) => rdnss_Apply auto lifetime servers addrs
+      | Err e => Err e
+      end)) = true.
+Proof. exact Proofs.WildcardCorr14.C14_checker_accepts_model_config. Qed.
 
 (* non-vacuity *)
 Definition ex_addrs : list sysip :=
@@ -179,5 +204,8 @@ Print Assumptions C14_none.
 Print Assumptions C14_error.
 Print Assumptions C14_static.
 Print Assumptions C14_static_sorted.
+Print Assumptions C14_static_accepts.
 Print Assumptions C14_static_map_order.
+Print Assumptions C14_checker_accepts_model_plugin.
+Print Assumptions C14_checker_accepts_model_config.
 Print Assumptions C14_example.
